@@ -1160,6 +1160,8 @@ impl Blockchain {
             let mut result: WindingResult =
                 WindingResult::Wind(new_chain.len() - 1, false, WALLET_NOT_UPDATED);
             loop {
+                #[cfg(saito_verif)]
+                crate::core::util::verif::step("blockchain.validate");
                 match result {
                     WindingResult::Wind(current_wind_index, wind_failure, wallet_status) => {
                         wallet_update_status |= wallet_status;
@@ -1202,6 +1204,8 @@ impl Blockchain {
         } else if !new_chain.is_empty() {
             let mut result = WindingResult::Unwind(0, true, old_chain.to_vec(), WALLET_NOT_UPDATED);
             loop {
+                #[cfg(saito_verif)]
+                crate::core::util::verif::step("blockchain.validate");
                 match result {
                     WindingResult::Wind(current_wind_index, wind_failure, wallet_status) => {
                         wallet_update_status |= wallet_status;
